@@ -10,8 +10,9 @@ import p_peerfsm
 import p_live
 import p_crypto
 import p_webseed
+import p_http
 
-HOOK_COMMITS = ["ad8b203", "23d7fe8", "8de280d", "16a7335", "4ddeda5"]
+HOOK_COMMITS = ["ad8b203", "23d7fe8", "8de280d", "16a7335", "4ddeda5", "a9fce0f"]
 
 NOT_APPLICABLE = {}
 
@@ -43,6 +44,20 @@ REGISTRY = {
                      "inspected block by block and TorData+TorDrop summed. 16 server behaviours x 5 ranges run through GetRight.Get with a recording writer. Running torrents fetch "
                      "from a local web seed (3 layouts x 3 server modes): stored blocks must be the right bytes and inFlight must return to zero.",
             "note": "Trusted: TLC, the scripted HTTP server, mktor/content."},
+    "C19": {"run": p_http.run_c19, "design": "DESIGN.md section 3 C19",
+            "technique": "TLC-enumerated (route, method, Host class) table of WebUI.tla executed on the real handlers through net/http's DefaultServeMux with hostile strings in every remote-controlled source",
+            "level": "WebUI.tla states which requests must be refused (foreign or missing Host) and which sources each page shows; TLC checks that a refused request is inert "
+                     "in the model and enumerates 520 cases. Each case runs against the real mux with a live torrent whose name, path components, tracker URL, web-seed URL "
+                     "and a known peer's version carry marked hostile strings: refused requests must answer 4xx, carry no torrent data and leave the torrent set and "
+                     "configuration unchanged; served HTML must not contain any marker unescaped; playlists must have exactly 1+2n lines.",
+            "note": "Trusted: TLC, net/http/httptest. Tracker error text is not driven (needs a live tracker failure); covered only through the same template path as the URL."},
+    "C20": {"run": p_http.run_c20, "design": "DESIGN.md section 3 C20",
+            "technique": "TLC-enumerated (layout, lookup path) table of Namespace.tla executed on the real HTTP file/directory/playlist handlers and on the FUSE nodes (fuse.VerifRoot)",
+            "level": "Namespace.tla defines Resolve/IsDir/Entries/Listed declaratively over component sequences; TLC checks their mutual consistency and enumerates 1264 cases over "
+                     "8 layouts. For each case the real HTTP handler must serve exactly the resolved file's bytes (ground truth from the content PRF, also under Range), answer "
+                     "non-200 for absent or partial paths, list exactly the files below a directory (page and playlist), and the FUSE tree must resolve, size, list and read "
+                     "the same (padding files hidden).",
+            "note": "Trusted: TLC, httptest, mktor/content. The FUSE kernel transport is not exercised; the nodes' methods are called directly."},
     "C10": {"run": p_live.run_c10, "design": "DESIGN.md section 3 C10",
             "technique": "TLC exhaustive model checking of Requests.tla + simulated behaviours executed on a running torrent (loop gate + yield hook)",
             "level": "Requests.tla (two-step Torrent.Request, FIFO loop, Flip before its TorHave, eviction, withdrawals) is model-checked exhaustively "
